@@ -304,7 +304,6 @@ Section SparseInv.
   Variable maxsz : N.
   Variable store : store_t.
   Hypothesis Hs : store_sound H store.
-  Hypothesis Hnoeof : forall k i, store k i <> SFail code_bare_eof.   (* the store's errors are never io.EOF itself *)
   Let nullid : id := snd (new_null_chunk H maxsz).
   Let n := length idx.
   Let Lb := length blob.
@@ -423,8 +422,7 @@ Section SparseInv.
         * inversion E; subst s'. left. unfold finish. rewrite Eq. constructor; cbn; auto.
           -- apply set_nth_Forall; [exact It|apply idle_ok; exact Hvq].
           -- constructor; [|exact Ig]. destruct rq; try exact I. cbn.
-             destruct (N.eqb c code_bare_eof) eqn:Ec; [|exact I].
-             apply N.eqb_eq in Ec. subst c. exfalso. exact (Hnoeof _ _ Est).
+             destruct (N.eqb c code_bare_eof); exact I.
       + (* WriteAt *)
         inversion Htodo as [|? ? Hi Htodo']; subst. inversion E; subst s'. clear E.
         pose proof (nth_row i Hi) as Hn.
@@ -604,16 +602,16 @@ End SparseInv.
 (* ---------- theorems over all schedules ---------- *)
 
 Theorem sparse_inv H idx blob maxsz store sched :
-  index_describes H idx blob -> store_sound H store -> (forall k i, store k i <> SFail code_bare_eof) ->
+  index_describes H idx blob -> store_sound H store ->
   let nullid := snd (new_null_chunk H maxsz) in
   loader_inv idx nullid blob (run (step idx nullid store) sched (init idx)) \/ Collision H.
 Proof.
-  intros Hd Hs Hne nullid.
+  intros Hd Hs nullid.
   pose (Inv := fun s => SInv H idx blob maxsz s \/ Collision H).
   assert (Hrun : Inv (run (step idx nullid store) sched (init idx))).
   { apply (inv_run (step idx nullid store) Inv).
-    - intros s l s' [Hi|C] E; [|right; exact C]. exact (step_inv H idx blob Hd maxsz store Hs Hne s l s' Hi E).
-    - exact (init_inv H idx blob Hd maxsz store Hne). }
+    - intros s l s' [Hi|C] E; [|right; exact C]. exact (step_inv H idx blob Hd maxsz store Hs s l s' Hi E).
+    - exact (init_inv H idx blob Hd maxsz). }
   destruct Hrun as [[Il Id Is _ Ig]|C]; [left|right; exact C]. constructor; assumption.
 Qed.
 
@@ -621,15 +619,15 @@ Qed.
    WriteState calls, any store faults, any sequence of restarts the code can perform (kills of the running process
    included) -- returned exactly blob[off, off+n), n = min(len, L-off). *)
 Theorem sparse_read_sound H idx blob maxsz store sched off len d eof :
-  index_describes H idx blob -> store_sound H store -> (forall k i, store k i <> SFail code_bare_eof) ->
+  index_describes H idx blob -> store_sound H store ->
   let nullid := snd (new_null_chunk H maxsz) in
   In (RqRead off len, ROk d eof) (s_log (run (step idx nullid store) sched (init idx))) ->
   off + Z.of_nat len < two64 ->
   (0 <= off /\ d = slice blob (Z.to_nat off) (length d) /\
    length d = Nat.min len (length blob - Z.to_nat off) /\ eof = (length d <? len)%nat) \/ Collision H.
 Proof.
-  intros Hd Hs Hne nullid Hin Hb.
-  destruct (sparse_inv H idx blob maxsz store sched Hd Hs Hne) as [[_ _ _ Hlog]|C]; [left|right; exact C].
+  intros Hd Hs nullid Hin Hb.
+  destruct (sparse_inv H idx blob maxsz store sched Hd Hs) as [[_ _ _ Hlog]|C]; [left|right; exact C].
   rewrite Forall_forall in Hlog. exact (Hlog _ Hin Hb).
 Qed.
 
@@ -739,7 +737,6 @@ Section Retry.
   Variable nullid : id.
   Variable store : store_t.
   Hypothesis Ht : tiles_from 0 idx.
-  Hypothesis Hnoeof : forall k i, store k i <> SFail code_bare_eof.
   Notation fetched := (fetched_ok idx store).
 
   Lemma fetched_mono fl fl' i : incl fl fl' -> fetched fl i -> fetched fl' i.
@@ -831,8 +828,7 @@ Section Retry.
         * inversion E; subst s'. unfold finish. rewrite Eq. constructor; cbn; auto.
           -- apply set_nth_Forall; [exact Rt|exact I].
           -- constructor; [|exact Rl]. destruct rq; try exact I. cbn.
-             destruct (N.eqb c code_bare_eof) eqn:Ec; [|exact I].
-             apply N.eqb_eq in Ec. subst c. exfalso. exact (Hnoeof _ _ Est).
+             destruct (N.eqb c code_bare_eof); exact I.
       + inversion E; subst s'. constructor; cbn; auto.
         apply set_nth_Forall; [exact Rt|]. unfold thread_r. cbn [pc queue]. rewrite Eq. split; [discriminate|]. split; [exact Hp|].
         destruct rq as [off len| |]; auto. intros H1 H2 H3 j r Hn Ho.
@@ -896,17 +892,17 @@ End Retry.
    GetChunk call for it succeeded and was written (in this or an earlier incarnation).  A failed load is never such a
    call: after a failure the range is served only after a successful retry, otherwise the read fails. *)
 Theorem sparse_retry idx nullid store sched off len d eof :
-  tiles_from 0 idx -> (forall k i, store k i <> SFail code_bare_eof) ->
+  tiles_from 0 idx ->
   let s := run (step idx nullid store) sched (init idx) in
   In (RqRead off len, ROk d eof) (s_log s) ->
   0 <= off -> (1 <= len)%nat -> off + Z.of_nat len < two64 ->
   forall j r, nth_error idx j = Some r -> row_overlaps r off len ->
     r_id r = nullid \/ exists c d', In (c, j) (s_fetched s) /\ store c (r_id r) = SData d'.
 Proof.
-  intros Ht Hne s Hin H1 H2 H3 j r Hn Ho.
+  intros Ht s Hin H1 H2 H3 j r Hn Ho.
   assert (Hr : RInv idx nullid store s).
   { apply (inv_run (step idx nullid store) (RInv idx nullid store)).
-    - intros s0 l s1. apply rstep; assumption.
+    - intros s0 l s1. apply rstep. exact Ht.
     - constructor; cbn.
       + intros i Hi. rewrite nth_repeat_false in Hi. discriminate.
       + intros b Hb i Hi. inversion Hb; subst b. rewrite nth_repeat_false in Hi. discriminate.
